@@ -170,7 +170,8 @@ KEYWORD_LIST = '|'.join(keyword.kwlist)
 RESERVED_NAMES = (
     'status', 'iterations',
     'lags', 'leads', 'endogenous', 'check', 'engine',
-    'attributes',  # Stored as `_attributes`: the instance's own list of attributes
+    # Stored as `_attributes` and `_strict`: the instance's own bookkeeping
+    'attributes', 'strict',
 )  # fmt: skip
 
 term_re = re.compile(
@@ -840,10 +841,15 @@ def parse_model(model: str, *, check_syntax: bool = True) -> List[Symbol]:
     # Error if any variables take names that model instances reserve for
     # solution tracking and their own attributes (classes with such variables
     # cannot be instantiated)
+    # (a variable is stored under its name with a leading underscore, which
+    # must not be the name of a method or attribute of the model class either
+    # e.g. a variable `evaluate` would replace the instance's `_evaluate()`)
+    from .core import BaseModel
+
     reserved_names = [
         s.name
         for s in symbols.values()
-        if s.name in RESERVED_NAMES
+        if (s.name in RESERVED_NAMES or hasattr(BaseModel, '_' + s.name))
         and s.type in (Type.VARIABLE, Type.EXOGENOUS, Type.ENDOGENOUS, Type.PARAMETER, Type.ERROR)
     ]  # fmt: skip
 
